@@ -16,11 +16,14 @@ import (
 
 func init() {
 	Register(&Prop{ID: "C20",
-		Meta: Meta{Level: "exploration", Race: true,
+		Meta: Meta{Stages: 2, Level: "exploration", Race: true,
 			Rule: "worker built with the Go race detector (on the seeded, single-P runtime: the happens-before analysis is unaffected, interleavings are the simulator's); 3-8 goroutines issue drawn public operations against ONE client: Start, Client, Protocol, NegotiatedVersion, ReattachConfig, ID, Exited, Dispense, calls on dispensed clients, broker NextId/Accept/Dial with distinct IDs on the host broker and, through plugin-side commands, on the plugin broker, Ping, and in half of the runs Kill (or a plugin-side GRPCServer stop via the controller) racing the operations in flight; net/rpc, gRPC, gRPC+mux; in a fifth of the runs the plugin fails to start (exits early, closes stderr, bad handshake, silent) and 2-5 goroutines use the client-level operations and Kill; schedule and wake-up order noise everywhere. Oracle: no race report whose stack contains a go-plugin frame (reports confined to harness, grpc-go or yamux are printed, not counted), no panic, no call hangs, and the multiset of NextId results on each broker has no duplicate"},
 		Plan: func(tier string, seed uint64, stage int, prev []*h.Result) []*k.Spec {
 			if stage > 0 {
-				return nil
+				// shutdown placed at every statement of an operation in flight (no
+				// race detector needed for these: a double close or a send on a
+				// closed channel is a panic)
+				return killRaceSpecs("C20", tier, seed, stage, prev)
 			}
 			n := 200
 			if tier == "thorough" {
@@ -29,8 +32,12 @@ func init() {
 			if tier == "selftest" {
 				n = 3
 			}
-			return seeded("C20", seed, n, func(i int, sd uint64) *k.Spec {
-				s := &k.Spec{Seed: sd, Params: cp(c03Confs[i%3], "race", "1", "killrace", []string{"0", "1"}[k.H(sd, "kr", 0)%2])}
+			var pre []*k.Spec
+			if tier != "selftest" {
+				pre = killRaceSpecs("C20", tier, seed, 0, nil)
+			}
+			return append(pre, seeded("C20", seed, n, func(i int, sd uint64) *k.Spec {
+				s := &k.Spec{Seed: sd, Params: cp(c03Confs[i%3], "race", "1", "killracing", []string{"0", "1"}[k.H(sd, "kr", 0)%2])}
 				if i%5 == 4 {
 					// a plugin whose start fails: the goroutines use the client-level operations only
 					s.Params["failing"] = c20Failing[int(k.H(sd, "failing", 0)%uint64(len(c20Failing)))]
@@ -47,7 +54,7 @@ func init() {
 					s.DelayClass = "mid"
 				}
 				return s
-			})
+			})...)
 		},
 		Run: runC20,
 	})
@@ -125,6 +132,10 @@ func runC20Failing(r *h.Run, kind string) {
 }
 
 func runC20(r *h.Run) {
+	if r.Spec.P("killrace", "") != "" {
+		runKillRace(r, "C20")
+		return
+	}
 	if f := r.Spec.P("failing", ""); f != "" {
 		runC20Failing(r, f)
 		return
@@ -136,7 +147,7 @@ func runC20(r *h.Run) {
 	cl := r.NewClient(c)
 	ng := 3 + w.Range("g/n", 6)
 	nops := 3 + w.Range("g/ops", 5)
-	killRace := r.Spec.P("killrace", "0") == "1"
+	killRace := r.Spec.P("killracing", "0") == "1"
 
 	var mu sync.Mutex
 	hostIDs, pluginIDs := map[string]int{}, map[string]int{}
